@@ -12,7 +12,8 @@ import numpy as np
 from common import Ctx, Finding, Outcome
 
 PROPERTY = "C14"
-LEAN_TARGETS = ["QcelVerif.Props.C14", "QcelVerif.Lemmas.AssignCert", "QcelVerif.Lemmas.MunkresInv", "QcelVerif.Driver.C14"]
+LEAN_TARGETS = ["QcelVerif.Props.C14", "QcelVerif.Props.C14Inv", "QcelVerif.Props.C14Term", "QcelVerif.Lemmas.AssignCert",
+                "QcelVerif.Lemmas.MunkresInv", "QcelVerif.Lemmas.MunkresInv2", "QcelVerif.Lemmas.MunkresTerm", "QcelVerif.Driver.C14"]
 DRIVER = "QcelVerif/Driver/C14.lean"
 THEOREMS = [
     ("QcelVerif.Assign.cert_optimal",
@@ -28,7 +29,37 @@ THEOREMS = [
     ("QcelVerif.Munkres.solve_reduced_rowcol",
      "for EVERY well-shaped input the Munkres model answers, reduced = cost - u_i - v_j for some u, v (steps 1/6 shift whole rows/columns, steps 3-5 never touch C, transposition undone); proved directly on the model, any size, any fuel"),
     ("QcelVerif.Munkres.solveChecked_optimal_partial",
-     "PARTIAL: if the Munkres model's answer passes certOK (solveChecked = ok) it is a minimum over all complete assignments and all optima lie on its zeros; that Munkres always terminates with a certified answer is executed (fuel), not proved"),
+     "PARTIAL (kept; superseded by solve_optimal): if the Munkres model's answer passes certOK (solveChecked = ok) it is a minimum over all complete assignments and all optima lie on its zeros"),
+    ("QcelVerif.Munkres.step1_establishes",
+     "step 1 (row minima, greedy starring) from the fresh state establishes Inv at step 3: C >= 0, C = cost - u - v (v = 0 = V), stars independent and on zeros, no primes, nothing covered"),
+    ("QcelVerif.Munkres.step3_preserves",
+     "Inv at step 3 -> step 3 hands the step-4 loop invariant on (a star's column covered iff its row is not; covered column has a star; no primes yet) or reports done with a star in every row"),
+    ("QcelVerif.Munkres.step4_preserves",
+     "Inv at step 4 + the while loop finishes -> Inv at step 6, or Inv at step 5 (Z0 a primed zero in a star-free row; star-in-column/prime-in-row links strictly decrease the priming order); primes are uncovered zeros, rows are covered only with star+prime, never-starred columns stay uncovered"),
+    ("QcelVerif.Munkres.step5_preserves",
+     "Inv at step 5 + the path loop finishes -> the alternating path has no repeated cell, flipping it and erasing primes gives Inv at step 3: stars again independent zeros, every column that had a star keeps one"),
+    ("QcelVerif.Munkres.step6_preserves",
+     "Inv at step 6 -> Inv at step 4: minval >= 0, C stays >= 0, stars and primes stay zeros, C = cost - u' - v' with never-starred (hence uncovered) columns at the maximal column potential"),
+    ("QcelVerif.Munkres.runSteps_preserves",
+     "any number of steps, any fuel: a run of the state machine that finishes from a state satisfying Inv ends with C >= 0, C = cost - u - v, independent stars on zeros, one per row, unstarred columns at maximal potential"),
+    ("QcelVerif.Munkres.step3_done_cert",
+     "Inv at step 3 and step 3 reports done -> the read-out (np.nonzero(marked == 1), C) passes certOK (0 < n <= m)"),
+    ("QcelVerif.Munkres.solve_certified",
+     "for EVERY well-shaped input the Munkres model answers (any shape; tall through the transpose; empty axes) the answer passes certOK - no certificate hypothesis"),
+    ("QcelVerif.Munkres.solve_optimal",
+     "solve inp = ok ans, well-shaped -> ans.pairs is a complete assignment with rows strictly increasing, of minimum total cost over ALL complete assignments, every optimum lies on the zeros of ans.red, ans.red >= 0, = 0 on the pairs, = cost - u_i - v_j; termination (= ok) is the only hypothesis"),
+    ("QcelVerif.Munkres.solveChecked_eq_solve",
+     "on well-shaped inputs solveChecked answers exactly when solve does, with the same answer (notCertified is unreachable)"),
+    ("QcelVerif.Munkres.solve_total_partial",
+     "PARTIAL (kept; superseded by solve_total): a valid input (2-d, numeric, finite) is answered or the model reports fuel/index exhaustion - no other error"),
+    ("QcelVerif.Munkres.step_terminates",
+     "every single step terminates under its invariant: the while of step 4 covers a new row at every pass (n+1 fuel suffices), the alternating path of step 5 visits each row at most once (<= 2n-1 <= n+m-1 path entries, n+m+1 fuel suffices, path never overrun)"),
+    ("QcelVerif.Munkres.step_decreases",
+     "every step strictly decreases the measure mu = (n - #starred rows)(2n+5) + position in the cycle 3->4->(6->4)*->5 + 2(n - #covered rows): step 5 stars one more row, step 6 always creates an uncovered zero, step 4 entered with an uncovered zero covers a new row or goes to step 5"),
+    ("QcelVerif.Munkres.solve_total",
+     "every valid (2-d, numeric, finite) well-shaped input of any shape is answered: the model never runs out of its fuel 4(n+m)^3+16 and never overruns path (mu(initial) = (n+1)(2n+5) < fuel)"),
+    ("QcelVerif.Munkres.solve_correct",
+     "TOTAL CORRECTNESS of the solver model: for every valid well-shaped cost matrix solve returns an answer, and it is a complete assignment with rows strictly increasing, of minimum total cost over ALL complete assignments, every optimum lies on the zeros of the reduced matrix, reduced >= 0, = 0 on the pairs, = cost - u_i - v_j"),
 ]
 TRUSTED_BASE = [
     "Lean 4.33 kernel; axioms per theorem audited on every run (subset of propext, Classical.choice, Quot.sound)",
@@ -40,7 +71,7 @@ TRUSTED_BASE = [
 ASSUMPTIONS = [
     "real/integer/boolean dtypes; complex, unsigned-overflow and object-numeric matrices are outside the quantifier and not generated",
     "float runs are held to optimality within 1e-9*max(1,max|cost|)*max(n,m) (float Munkres is only eps-optimal); integer and small-dyadic runs exactly",
-    "termination and the remaining Munkres step invariants (non-negativity, independent stars on zeros, never-starred columns stay uncovered) are executed on fuel, not proved (the certificate theorem needs neither)",
+    "the theorems are about the exact-rational model: partial and total correctness of Munkres (step invariants, termination within 4(n+m)^3+16 steps, n+1 passes of the step-4 loop, n+m+1 links of the step-5 path) are proved for all sizes over Rat; for float inputs whose arithmetic is not exact the implementation may deviate from the model (eps-optimality, and in principle non-termination) - that part is covered by the executed certificate with measured slack and the hang budget",
     "a mutation that changes the step sequence but still yields certified optimal answers is reported as a broken correspondence (VIOLATION ... no-failing-input-found), not as a property failure",
 ]
 RULE = (
@@ -52,12 +83,14 @@ RULE = (
     "Distinct = distinct (shape,dtype,entries); non-trivial = the run leaves step 3 at least once (needs priming/augmenting/adjusting) or is refused."
 )
 LEVEL_TEXT = (
-    "proof, partial: proved for all sizes — the optimality certificate (a certified answer is a true minimum over all complete assignments and all "
-    "optima lie on its zeros, rectangular included), the row/column-constant form of the model's reduced matrix, and refusal of bad input; "
-    "the solver model is tied to the code by exhaustive small-scope + sampled full step traces; NOT proved: that Munkres always terminates with a "
-    "certifiable answer (stars independent, reduced >= 0) — that part is executed on every explored input and checked by the proved certificate"
+    "proof: proved for all sizes — the optimality certificate (a certified answer is a true minimum over all complete "
+    "assignments and all optima lie on its zeros, rectangular included), the Munkres step invariants through steps 1,3,4,5,6 and any number of steps, "
+    "termination of every step and of the state machine within the model's fuel, hence TOTAL correctness of the exact-arithmetic solver model "
+    "(every valid well-shaped input is answered, and the answer is a complete assignment of minimum cost with a non-negative reduced matrix "
+    "= cost - u - v vanishing on the pairs; tall inputs via the transpose), and refusal of bad input; partial in that the model is hand-written and "
+    "tied to the code by exhaustive small-scope + sampled full step traces on exactly representable matrices (float rounding is outside the model)"
 )
-TECHNIQUE = "Lean 4 proof of weak duality for rectangular assignment (certificate checker) + step-trace correspondence of a Munkres model + brute-force oracle"
+TECHNIQUE = "Lean 4 proof of weak duality for rectangular assignment (certificate checker) + Lean 4 invariant proof (partial correctness) of the Munkres model + step-trace correspondence + brute-force oracle"
 
 STEP_CAP = 20000
 HANG_BUDGET = 4  # after this many non-terminating calls the stream is cut short (each costs a time-out)
